@@ -151,7 +151,8 @@ def fault_stmt(rng, kind, eq):
     if kind in BADV:
         return ['set', eq, lib.fhex(BADV[kind])]
     if kind == 'warn':
-        return ['warnset', eq, lib.fhex(rng.choice([float('inf'), float('nan'), float('-inf'), 7.0]))]
+        a = ['warnset', eq, lib.fhex(rng.choice([float('inf'), float('nan'), float('-inf'), 7.0]))]
+        return a + ['user'] if rng.random() < 0.3 else a          # a warning of another category than NumPy's RuntimeWarning
     return ['raise', rng.choice([10, 11, 12, 13, 14])]
 
 
@@ -374,7 +375,7 @@ def oracle(case, obs):
             '(variable V%d at t=%d); the warning must stop the pass before the store' % tuple(obs['warn_stored'][0]))
     if not (errors == 'raise' and o['catch_first_error']):
         for r in obs['raised']:
-            if r[3] == 'RuntimeWarning':
+            if r[3] in ('RuntimeWarning', 'UserWarning'):
                 bad('warning-filter', 'a warning surfaced as an exception in %s %d although errors=%r, catch_first_error=%r (only '
                     'errors="raise" with catch_first_error stops at the warning); got %s' % (r[0], r[2], errors, o['catch_first_error'], out))
                 break
